@@ -157,7 +157,9 @@ func ShareWithConfig[T any](config ShareConfig[T]) func(Observable[T]) Observabl
 				)
 
 				// Subscription between the source and the subject.
-				sourceSubscription.AddUnsubscribable(
+				// Not `sourceSubscription`: that variable is shared, guarded by the mutex,
+				// and may already have been reset (set to nil) by a concurrent subscriber.
+				currentSourceSubscription.AddUnsubscribable(
 					source.SubscribeWithContext(subscriberCtx, proxy),
 				)
 			}
